@@ -139,7 +139,7 @@ def random_herm_mpo(rng, n, d, bond, cplx):
     return qtn.MatrixProductOperator(arrays, shape="lrud")
 
 
-def spin_ham(rng, n, S, cplx):
+def spin_ham(rng, n, S, cplx, shift=0.0):
     """XYZ chain with anisotropies, fields in all directions and (complex case) a Dzyaloshinskii-Moriya term"""
     import quimb.tensor as qtn
 
@@ -155,6 +155,8 @@ def spin_ham(rng, n, S, cplx):
         b += dm, "X", "Y"
         b -= dm, "Y", "X"
         b += float(rng.uniform(0.2, 1.0)), "Y"
+    if shift:
+        b += float(shift), "I"
     for i in range(n):          # site dependent field
         b[i] += float(rng.uniform(-0.5, 0.5)), "Z"
     return b.build_mpo(n)
@@ -177,7 +179,8 @@ def mps_dense(psi):
 
 
 def iso_defect(psi, i, bsz):
-    """largest deviation from isometry of the sites left of i (left-isometric) and right of i+bsz-1"""
+    """largest deviation from isometry of the environment blocks of the local problem at sites
+    i .. i+bsz-1: the sites left of i must be left-isometric, the sites right of i+bsz-1 right-isometric"""
     worst = 0.0
     L = psi.L
     for s in range(L):
@@ -271,6 +274,9 @@ class Recorder:
             L, d = dm.L, c["d"]
             bl = 1 if i == 0 else before[i - 1]
             br = 1 if i + bsz - 1 == L - 1 else before[i + bsz - 1]
+            pre = iso_defect(dm.state, i, bsz)       # the blocks the local problem is about to be formed from
+            c["fail_noniso"] = bool(pre > 1e-3)
+            first = bool(c["k"] == 1 and c["nupd"] == 0)
             out = oupd(dm, i, **update_opts)
             loc_en, tot_en = out
             psi = dm.state
@@ -291,7 +297,9 @@ class Recorder:
                  "nb": int(after[i]) if bsz == 2 else 0,
                  "rmax": int(min(bl * d, d * br)) if bsz == 2 else 0,
                  "full": bool(bl == d ** i and br == d ** (L - i - bsz)),
-                 "canon9": qabs(iso_defect(psi, i, bsz), 1e-9),
+                 "pre9": qabs(pre, 1e-9), "noniso": bool(pre > 1e-3), "first": first,
+                 # narrowing field for KF-C10-1: the first update does not exceed p0's energy w.r.t. H^T
+                 "p0T": bool(c["cplx"] and first and complex(loc_en).real <= c["ep0T"] + 1e-6 * (1 + abs(c["ep0T"]))),
                  "tconj": rec._tconj(tot.real, m, normalised=(w9 <= 100), unnorm=True)}
             rec.emit(r)
             return out
@@ -325,8 +333,9 @@ class Recorder:
         r["bsz"] = c["bsz"]
         self.recs.append(r)
 
-    def arm(self, dmrg, ham, Hd, tid, cplx, d):
+    def arm(self, dmrg, ham, Hd, tid, cplx, d, ep0T=0.0):
         self.cur = {"dmrg": dmrg, "ham": ham, "Hd": Hd, "tid": tid, "cplx": bool(cplx), "d": int(d),
+                    "ep0T": float(ep0T), "fail_noniso": False,
                     "bsz": int(dmrg.bsz), "k": 0, "cap": -1, "cut12": 0, "nupd": 0, "lastw9": 0}
 
     def disarm(self):
